@@ -14,7 +14,7 @@ func init() {
 		id: "C07",
 		li: levelInfo{
 			Level:       "other",
-			Explanation: "Static rules on the self-healing paths of the Redis upstream. R1: a key inserted into the in-flight-connect map by the goroutine that wins LoadOrStore is deleted on every path after the attempt completed (a finished entry must not be observable later - otherwise every later request for that address gets the cached dead connection or the cached error). R2: the goroutine that runs a backend connection removes it from the table after the run function returns; the reader's return is followed by a Close of the connection before the writer is joined (a writer blocked in a socket write is woken). R3: every path on which a slots refresh failed reaches the refresh trigger. R4: redirect / cluster-down handlers and each host-change callback with a non-empty argument reach the trigger; OnHostRemove stops the connection of every removed address; OnHostReplace resets all. R5: every blocking operation reachable from the refresh loop is guarded by upstream.quit, a join, or bounded by a timer. R6: the nil test of the slot entry dominates every dereference of it. R7: a slots refresh rewrites every slot a master line lists (no stale owner/replica list survives). Convergence within a bounded number of rounds is not decided. R3 also requires every send on the refresh channel to be non-blocking (its only receiver is the refresh loop itself). R7 also runs the CLUSTER NODES parser obligations (a master without slots is accepted). R8: a successfully parsed view is always applied. R9 (shared with C09.R7): no lock is held at a join that the joined goroutines need. R2 also requires the goroutine to remove the key the connection was added under (same value of the creating function). R1 also requires the values the winner returns to be stored into the in-flight entry first. R5 treats a timer channel drained after Stop() returned false as unbounded. R4 also runs the redirect-callback obligations of C04.R3. R7 forbids substring tests on columns.",
+			Explanation: "Static rules on the self-healing paths of the Redis upstream. R1: a key inserted into the in-flight-connect map by the goroutine that wins LoadOrStore is deleted on every path after the attempt completed (a finished entry must not be observable later - otherwise every later request for that address gets the cached dead connection or the cached error). R2: the goroutine that runs a backend connection removes it from the table after the run function returns; the reader's return is followed by a Close of the connection before the writer is joined (a writer blocked in a socket write is woken). R3: every path on which a slots refresh failed reaches the refresh trigger. R4: redirect / cluster-down handlers and each host-change callback with a non-empty argument reach the trigger; OnHostRemove stops the connection of every removed address; OnHostReplace resets all. R5: every blocking operation reachable from the refresh loop is guarded by upstream.quit, a join, or bounded by a timer. R6: the nil test of the slot entry dominates every dereference of it. R7: a slots refresh rewrites every slot a master line lists (no stale owner/replica list survives). Convergence within a bounded number of rounds is not decided. R3 also requires every send on the refresh channel to be non-blocking (its only receiver is the refresh loop itself). R7 also runs the CLUSTER NODES parser obligations (a master without slots is accepted). R8: a successfully parsed view is always applied. R9 (shared with C09.R7): no lock is held at a join that the joined goroutines need. R2 also requires the goroutine to remove the key the connection was added under (same value of the creating function). R1 also requires the values the winner returns to be stored into the in-flight entry first. R5 treats a timer channel drained after Stop() returned false as unbounded. R4 also runs the redirect-callback obligations of C04.R3. R7 forbids substring tests on columns. R3 also: every receive on the refresh channel is followed by a refresh round before the goroutine waits again or returns. R8 also: every path from a successful parse goes through the table update. R7 also: the parser rejects a whole view only for a short line, an address without host:port shape, or an error of a callee.",
 			TrustedBase: []string{"go/ssa", "VTA call graph", "samlint echan.go"},
 		},
 		run: checkC07,
